@@ -60,6 +60,8 @@ def generate(rng, tier):
     late_new = None
     pool = list(observe.FORMATS) if rng.random() < 0.5 else rng.sample(observe.FORMATS, 3)
     n = rng.randint(2, 6 if tier == "thorough" else 5)
+    if rng.random() < 0.05:
+        n = rng.randint(11, 14)  # more than nine generations (two-digit generation numbers)
     first_fmts = None
     for g in range(n):
         if g > 0 and nested and rng.random() < 0.2:
